@@ -201,6 +201,10 @@ pub struct SrtlaConnection {
     /// forbids `last_received` for the latch does not apply. Set by
     /// `apply_stall_gate`; read only for rising-edge counting and selection.
     pub(crate) silence_pulled: bool,
+    /// `last_received` as it stood when the silence pull engaged. The pull
+    /// releases only once `last_received` has moved past this mark, i.e. the
+    /// link was actually heard from again.
+    pub(crate) silence_pull_heard_mark: Option<u64>,
     /// Cumulative silence-pull engagements (rising edges). Expected to tick
     /// on routine cellular HARQ stalls; a high rate is telemetry, not alarm.
     pub(crate) silence_pulls: u64,
@@ -285,6 +289,7 @@ impl SrtlaConnection {
             stall_gate_events: 0,
             stall_probe_counter: 0,
             silence_pulled: false,
+            silence_pull_heard_mark: None,
             silence_pulls: 0,
             conn_timeout_ms: crate::config_snapshot::CONN_TIMEOUT_MS,
             rtt: RttTracker::default(),
@@ -759,6 +764,7 @@ impl SrtlaConnection {
         if self.is_briefly_silent(now_ms, min_in_flight, stale_ceiling_ms) {
             if !self.silence_pulled {
                 self.silence_pulls += 1;
+                self.silence_pull_heard_mark = self.last_received;
                 debug!("{}: silence pull engaged", self.label);
             }
             self.silence_pulled = true;
@@ -767,10 +773,15 @@ impl SrtlaConnection {
         if !self.silence_pulled {
             return;
         }
+        // "Spoke" = a byte arrived since the pull engaged AND it is recent.
+        // Recency alone is not enough: the window is RTT-scaled, and an RTT
+        // sample taken on this link from a cumulative SRT ACK that arrived via
+        // ANOTHER link widens it, which would readmit a link that is still mute.
         let window = self.silence_pull_window_ms(stale_ceiling_ms);
-        let spoke = self
-            .last_received
-            .is_some_and(|lr| now_ms.saturating_sub(lr) < window);
+        let spoke = self.last_received != self.silence_pull_heard_mark
+            && self
+                .last_received
+                .is_some_and(|lr| now_ms.saturating_sub(lr) < window);
         if spoke || !self.connected {
             self.silence_pulled = false;
         }
@@ -874,6 +885,7 @@ impl SrtlaConnection {
         // `silence_pulls` survives like `stall_gate_events`: both count
         // engagements over the link's life.
         self.silence_pulled = false;
+        self.silence_pull_heard_mark = None;
     }
 
     /// Mark connection for recovery (C-style), similar to setting last_rcvd = 1.
